@@ -35,35 +35,23 @@ theorem search_reverse (l t : Bits) (a b : Nat) (hab : a ≤ b) (hb : b ≤ l.le
 
 /-! ### find / rfind -/
 
-/- Full statement (false on the current tree for ba = true, finding `lsb0-aligned-find`):
-     ∀ ba, findOp .lsb0 l t start stop ba = findOp .msb0 l.reverse t.reverse start stop ba                -/
-/-- `find` under lsb0 = `find` of the reversed pattern in the reversed bits (same start/end, same result
-    position, same errors), when `bytealigned` is off. -/
-theorem find_lsb0_mirror_partial (l t : Bits) (start stop : Option Int) :
-    findOp .lsb0 l t start stop false = findOp .msb0 l.reverse t.reverse start stop false :=
-  find_lsb0_mirror_partial_s l t start stop
+/-- `find` under lsb0 = `find` of the reversed pattern in the reversed bits: same start/end, same result position,
+    same errors, with and without `bytealigned` (alignment is a property of the lsb0 position, as in `findall`). -/
+theorem find_lsb0_mirror (l t : Bits) (start stop : Option Int) (ba : Bool) :
+    findOp .lsb0 l t start stop ba = findOp .msb0 l.reverse t.reverse start stop ba :=
+  find_lsb0_mirror_s l t start stop ba
 
-theorem rfind_lsb0_mirror_partial (l t : Bits) (start stop : Option Int) :
-    rfindOp .lsb0 l t start stop false = rfindOp .msb0 l.reverse t.reverse start stop false :=
-  rfind_lsb0_mirror_partial_s l t start stop
+theorem rfind_lsb0_mirror (l t : Bits) (start stop : Option Int) (ba : Bool) :
+    rfindOp .lsb0 l t start stop ba = rfindOp .msb0 l.reverse t.reverse start stop ba :=
+  rfind_lsb0_mirror_s l t start stop ba
 
-/-- With `bytealigned=True` the code aligns to stored (msb0) byte positions, not to mirrored ones
-    (known finding `lsb0-aligned-find`). -/
-theorem find_lsb0_alignedFind_witness :
-    alignedFind true = true ∧
-    findOp .lsb0 [false, true] [true] none none true = .ok none ∧
-    findOp .msb0 [false, true].reverse [true].reverse none none true = .ok (some 0) ∧
-    rfindOp .lsb0 [true, true] [true] none none true = .ok (some 1) ∧
-    rfindOp .msb0 [true, true].reverse [true].reverse none none true = .ok (some 0) := by
-  decide
-
-/-- It is not an alignment in lsb0 coordinates either: in ten bits, `find(bytealigned=True)` reports position 9
-    (the documentation says "only at byte aligned positions"), while `findall(bytealigned=True)` — which aligns
-    lsb0 positions — finds nothing. -/
-theorem find_lsb0_alignedFind_not_aligned :
-    findOp .lsb0 [true, false, false, false, false, false, false, false, false, false] [true] none none true = .ok (some 9) ∧
-    findallOp .lsb0 [true, false, false, false, false, false, false, false, false, false] [true] none none none true = .ok [] := by
-  decide
+/-- `find(bytealigned=True)` is the first item of `findall(bytealigned=True)` in lsb0 mode as well. -/
+theorem find_lsb0_aligned_is_first_of_findall (l t : Bits) (a b : Nat) :
+    find_ .lsb0 l t a b true = (findall_ .lsb0 l t a b (some 1) true).map List.head? := by
+  unfold find_ findall_
+  dsimp only
+  simp only [↓reduceIte]
+  cases findallLsb0 (chunkIncrement t) l t a b (some 1) true <;> rfl
 
 /-! ### findall: the reverse chunk scan -/
 
@@ -84,6 +72,9 @@ theorem findall_lsb0_mirror (l t : Bits) (start stop : Option Int) (count : Opti
 
 /-! ### non-vacuity -/
 example : findOp .lsb0 [true, true, false, true, false, false] [true, false] none none false = .ok (some 1) := by decide
+example : findOp .lsb0 [false, true] [true] none none true = .ok (some 0) ∧ rfindOp .lsb0 [true, true] [true] none none true = .ok (some 0) := by decide
+example : findOp .lsb0 [true, false, false, false, false, false, false, false, false, false] [true] none none true = .ok none ∧
+    rfindOp .lsb0 [false, true, false, false, false, false, false, false, false, true] [true] none none true = .ok (some 8) := by decide
 example : findallLsb0 8192 [true, true, false, true, false, false] [true, false] 0 6 none false = .ok [1, 3] := by decide
 example : findallLsb0 1 [true, false, true, true, false, true] [true] 0 6 (some 3) false = .ok [0, 2, 3] := by decide
 example : findallLsb0 1 [false, false, true, false] [true] 0 4 none false = .ok [1] := by decide
